@@ -293,6 +293,9 @@ carquet_status_t carquet_buffer_reader_read(carquet_buffer_reader_t* reader,
         return CARQUET_ERROR_FILE_TRUNCATED;
     }
 
+    if (size == 0) {
+        return CARQUET_OK;  /* nothing to copy; data may be NULL for an empty buffer */
+    }
     memcpy(dest, reader->data + reader->pos, size);
     reader->pos += size;
     return CARQUET_OK;
